@@ -161,30 +161,13 @@ func c09RowHolds(p *Program, ff *FuncFacts, s PanicSite, row *c09Row, via map[*s
 	}
 	if len(row.callerFacts) > 0 {
 		n := 0
-		// a call made from a new helper is a call made by that helper's callers: the facts are
-		// asked for at their call sites (each on its own — the callers need not agree on terms)
-		var sites []Site
-		var expand func(fn *ssa.Function, depth int)
-		seenH := map[*ssa.Function]bool{}
-		expand = func(fn *ssa.Function, depth int) {
-			for _, site := range p.callSitesOf(fn) {
-				if isNewHelper(site.Fn) && depth < 3 && !seenH[site.Fn] {
-					seenH[site.Fn] = true
-					expand(site.Fn, depth+1)
-					continue
-				}
-				sites = append(sites, site)
-			}
-		}
-		expand(s.Fn, 0)
-		for _, site := range sites {
-			if _, reach := via[site.Fn]; !reach {
-				continue
-			}
-			n++
+		// the facts are asked for at each call site; a call made from a new helper that does not
+		// establish them itself is a call made by that helper's callers: asked for there (each
+		// caller on its own — they need not agree on terms)
+		var check func(site Site, depth int) (bool, string)
+		check = func(site Site, depth int) (bool, string) {
 			cf := factsOfConv(site.Fn)
 			cfs := cf.FactsAt(site.Call.Block())
-			// facts of loop conditions etc.; a bare "(" just demands that the call is conditional on something
 			for _, frag := range row.callerFacts {
 				if frag == "(" {
 					if len(cfs) == 0 && !cf.EveryPathHas(site.Call.Block(), func(Fact) bool { return true }) {
@@ -194,8 +177,29 @@ func c09RowHolds(p *Program, ff *FuncFacts, s PanicSite, row *c09Row, via map[*s
 				}
 				frag := frag
 				if !has(cfs, frag) && !cf.EveryPathHas(site.Call.Block(), func(f Fact) bool { return fragMatch(f.String(), frag) }) {
+					if isNewHelper(site.Fn) && depth < 3 {
+						outer := p.callSitesOf(site.Fn)
+						if len(outer) > 0 {
+							for _, o := range outer {
+								if ok, why := check(o, depth+1); !ok {
+									return false, why
+								}
+							}
+							continue
+						}
+					}
 					return false, "call site " + p.InstrPos(site.Call) + " in " + FuncKey(site.Fn) + " lacks the fact «" + frag + "»; facts there: " + factsStr(cfs)
 				}
+			}
+			return true, ""
+		}
+		for _, site := range p.callSitesOf(s.Fn) {
+			if _, reach := via[site.Fn]; !reach {
+				continue
+			}
+			n++
+			if ok, why := check(site, 0); !ok {
+				return false, why
 			}
 		}
 		if n == 0 {
